@@ -21,6 +21,8 @@ fn seed_alphabet() -> Vec<Argv> {
             "SET {k} 9223372036854775807",
             "SET {k} -9223372036854775808",
             "SET {k} a PX 100000",
+            // one millisecond from its deadline: whatever moves the executor's clock, however little, removes it
+            "SET {k} a PX 1",
             "SET {k} 1.5",
             "RPUSH {k} a",
             "RPUSH {k} a b",
